@@ -344,6 +344,48 @@ def check_node_clone(ctx, i):
     ctx.case({"form": "node-clone", "clone": str(clone), "ren": ren, "n": n}, n >= 2)
 
 
+def check_mapped_inner_default(ctx, i):
+    """A node inside the mapped graph mutates its default-valued argument: every item starts from a fresh default,
+    through runner.map and through a mapping node alike (item i = a single run on that combination)."""
+    import asyncio
+
+    from hypergraph import AsyncRunner, FunctionNode, Graph, SyncRunner
+
+    rng = ctx.rng
+
+    def rec(x, acc=[]):  # noqa: B006 - the mutable default is the point
+        acc.append(x)
+        return list(acc)
+
+    def rec_d(x, acc={"n": 0}):  # noqa: B006
+        acc["n"] += 1
+        acc[x] = acc["n"]
+        return sorted(acc.items(), key=repr)
+
+    f = rng.choice([rec, rec_d])
+    g = Graph([FunctionNode(f, name="rec", output_name="seen")], name="inner")
+    items = [f"it{j}" for j in range(rng.randint(2, 4))]
+    single = [SyncRunner().run(g, {"x": it})["seen"] for it in items]
+    node = g.as_node().map_over("x")
+    if rng.random() < 0.5:
+        node = node.with_inputs(x="xs")
+    key = "xs" if "xs" in node.inputs else "x"
+    outer = Graph([node], name="outer")
+    for runner in ("sync", "async"):
+        for form in ("node", "runner.map"):
+            if form == "node":
+                r = SyncRunner().run(outer, {key: list(items)}) if runner == "sync" else asyncio.run(AsyncRunner().run(outer, {key: list(items)}))
+                got = r.values.get("seen")
+            else:
+                rs = SyncRunner().map(g, {"x": list(items)}, map_over="x") if runner == "sync" else asyncio.run(AsyncRunner().map(g, {"x": list(items)}, map_over="x"))
+                got = [x.values.get("seen") for x in rs]
+            ctx.obs["map_calls"] += 1
+            ctx.obs["items_compared"] += len(items)
+            if got != single:
+                ctx.violation("C10:item-mismatch", f"{form}/{runner}: items of a graph whose node mutates its default-valued argument give {got}; single runs on the same combinations give {single}", {"form": form + " with a mutating inner default", "runner": runner, "items": items, "function": f.__name__})
+    ctx.case({"form": "mapped-inner-default", "f": f.__name__, "n": len(items)}, True)
+
+
 def check_nested_map(ctx, i):
     """A mapping node inside a mapping node: xs = list of lists."""
     rng = ctx.rng
@@ -381,5 +423,7 @@ def run(ctx):
             check_map_node(ctx, i)
         elif i % 10 == 4:
             check_node_clone(ctx, i)
+        elif i % 20 == 9:
+            check_mapped_inner_default(ctx, i)
         else:
             check_nested_map(ctx, i)
